@@ -858,7 +858,7 @@ func init() {
 }
 
 // c09Ops: operation index -> variants worth running
-var c09Names = []string{"packet loop (Parse+Notify)", "purge", "FindIP+row read", "GetHosts+row read", "FindByMAC", "FindMACEntry", "Capture", "Release", "IsCaptured", "IPAddrs", "DHCP offer accessors", "PrintTable", "DHCPv4Update", "name update", "Close", "DHCPv4IPOffer alone", "SetDHCPv4IPOffer alone"}
+var c09Names = []string{"packet loop (Parse+Notify)", "purge", "FindIP+row read", "GetHosts+row read", "FindByMAC", "FindMACEntry", "Capture", "Release", "IsCaptured", "IPAddrs", "DHCP offer accessors", "PrintTable", "DHCPv4Update", "name update", "Close", "DHCPv4IPOffer alone", "SetDHCPv4IPOffer alone", "Notify alone"}
 
 func threadJobs(tier string) []Job {
 	c := Config{MaxLoop: 100, MaxWall: 1500, Preempt: -1, Stubs: map[string]bool{}}
@@ -926,6 +926,15 @@ func threadJobs(tier string) []Job {
 			jobs = append(jobs, Job{Pkg: "handlers/dns_naming", Func: "VerifC09DNS", Args: []int64{op, k}, Cfg: hd, Threads: true, Reach: r})
 		}
 	}
+	// Notify on its own (its Parse ran earlier) against every other operation except the packet loop itself
+	for b := int64(1); b <= 16; b++ {
+		if b == 12 {
+			continue
+		}
+		for _, v := range []int64{0, 4} {
+			add(17, v, b, 0)
+		}
+	}
 	if tier == "thorough" {
 		for _, va := range []int64{0, 1, 4} {
 			for _, x := range []int64{2, 6, 13, 14} { // not 12: DHCPv4Update runs inside the packet loop
@@ -944,7 +953,7 @@ func init() {
 		Bounds: func(tier string) map[string]string {
 			m := map[string]string{
 				"threads":  "2 goroutines (thorough: also 3: packet loop + purge + one API caller), one operation each, started from a table with MAC1{2 IPv4 hosts} and MAC2{1 host} whose online flags and ages are symbolic",
-				"ops":      "packet loop (Parse+Notify of a frame refreshing a host / claiming another MAC's address / from a new host), purge(now), FindIP, GetHosts, FindByMAC, FindMACEntry, Capture, Release, IsCaptured, IPAddrs, DHCP offer accessors (together and each on its own), PrintTable, DHCPv4Update, Host.UpdateMDNSName, Close",
+				"ops":      "packet loop (Parse+Notify of a frame refreshing a host / claiming another MAC's address / from a new host; also Notify alone after an earlier Parse), purge(now), FindIP, GetHosts, FindByMAC, FindMACEntry, Capture, Release, IsCaptured, IPAddrs, DHCP offer accessors (together and each on its own), PrintTable, DHCPv4Update, Host.UpdateMDNSName, Close",
 				"handlers": "ARP handler: spoof loop (started by StartHunt) || one of ProcessPacket (ARP request from the victim), StopHunt, StartHunt of another host, IsHunting, PrintTable, StopHunt+StartHunt || optional early Close; ICMPv6 handler: NA spoof loop || one of ProcessPacket (router advertisement), StopHunt, StartHunt, PrintTable, StopHunt+StartHunt || optional early Close or a concurrent ProcessPacket, with and without a known router; the session's own background goroutines are not started; timers fire at most once per path; every run ends with Close and must leave no goroutine blocked; DHCP handler: ProcessPacket (DISCOVER of a new client, primary and secondary mode, one lease that may be expired) || one of MinuteTicker, PrintTable, StartHunt, StopHunt, Close; naming handler: ProcessDNS (new name / name already stored) || one of DNSFind (and reading the returned copy), DNSExist, PrintDNSTable",
 				"schedule": "quick: non-preemptive schedules (every order in which threads start / resume after blocking); thorough: one preemption at any acquire. The happens-before race check is schedule independent for the code executed on a path",
 			}
